@@ -1,11 +1,11 @@
-\* generation: every transition over the scripted tree T3 with one observer and one restart, printed once
+\* generation: every transition over tree T3w, one observer, one restart
 SPECIFICATION Spec
 CONSTANTS
   N = 3
   Byz <- NoByz
   Nodes <- Obs1
-  Blk0 <- T3
-  MaxBlocks = 9
+  Blk0 <- T3w
+  MaxBlocks = 15
   MaxRestarts = 1
   ByzMode = "branch"
   ByzRanges <- R123
